@@ -992,6 +992,13 @@ class Boolean(AbstractBoolean, Constant):
     Abstract values corresponding to constant boolean values.
     """
 
+    def __bool__(self: Boolean) -> bool:
+        """
+        A constant boolean is its value, as in the Nada DSL (where the
+        literal ``Boolean`` type is the only one that has a truth value).
+        """
+        return bool(self.value)
+
 
 class PublicBoolean(AbstractBoolean, Public):
     """
